@@ -73,7 +73,10 @@ func (d *drv) vrf(s vrfScen, rep int) {
 	if prevSeed == 0 {
 		prevSeed = 7
 	}
-	toc := d.r.Intn(3)
+	// the timeout count the round really takes (SetTimeoutCount saturates at server_chain.round_timeouts.timeout_cap)
+	probe := mc.CreateRound(round.NewRound(rn))
+	probe.SetTimeoutCount(d.r.Intn(3))
+	toc := probe.GetTimeoutCount()
 	pr := mc.CreateRound(round.NewRound(rn - 1))
 	pr.SetRandomSeed(prevSeed, len(w.Miners))
 	mc.AddRound(pr)
